@@ -103,8 +103,16 @@ class Gl:
         # private state added later (flags, caches, counters) is arbitrary in a reachable pre-state: never the constructor's value
         adt = self.facts.adt(GP)
         located = set((adt.get('canon_paths') or {}).values() and [p[0] for p in adt['canon_paths'].values()])
+        from .. import frozen
+        _ctor, fr = frozen.frozen_fields(self.facts, GP)
+        fr = fr if _ctor is not None and _ctor.endswith('::new') and isinstance(fr, set) else set()
         for i, f in enumerate(adt['variants'][0]['fields']):
             if f['name'] in KNOWN_GP_FIELDS or i in located:
+                continue
+            if i in fr:
+                # set by `new` (the only function that builds a GlideProcessor) and written nowhere else: still the constructor's
+                # value, which the template holds as a term in the same sample rate as the limits (sa/frozen.py)
+                self.facts.__dict__.setdefault('frozen_links', {}).setdefault(GP, {'constructor': _ctor, 'links': {}})['links']['self.' + f['name']] = 'value given by new()'
                 continue
             gp.fields[i] = it.sym_value(st, f['ty'], 'self.' + f['name'])
         return gp
